@@ -84,6 +84,92 @@ func (p *Prog) heavySpec(name string) bool {
 	return reach(name)
 }
 
+// termConsts collects the declared constants a term mentions (memoised per term id).
+func (p *Prog) termConsts(t *Term, memo map[int][]string) []string {
+	if r, ok := memo[t.id]; ok {
+		return r
+	}
+	set := map[string]bool{}
+	var rec func(x *Term)
+	seen := map[int]bool{}
+	rec = func(x *Term) {
+		if seen[x.id] {
+			return
+		}
+		seen[x.id] = true
+		if len(x.Args) == 0 {
+			if _, ok := p.consts[x.Head]; ok {
+				set[x.Head] = true
+			}
+			return
+		}
+		for _, a := range x.Args {
+			rec(a)
+		}
+	}
+	rec(t)
+	var out []string
+	for k := range set {
+		out = append(out, k)
+	}
+	memo[t.id] = out
+	return out
+}
+
+// BuildQueryCOI keeps only the hypotheses in the goal's cone of influence: facts sharing
+// (transitively) a declared constant with the goal. Dropping hypotheses is sound.
+func (p *Prog) BuildQueryCOI(o *Obligation) (string, bool) {
+	facts := p.relevantFacts(o)
+	memo := map[int][]string{}
+	in := map[string]bool{}
+	for _, c := range p.termConsts(o.Goal, memo) {
+		in[c] = true
+	}
+	taken := make([]bool, len(facts))
+	changed := true
+	for changed {
+		changed = false
+		for i, f := range facts {
+			if taken[i] {
+				continue
+			}
+			cs := p.termConsts(f, memo)
+			hit := len(cs) == 0
+			for _, c := range cs {
+				if in[c] {
+					hit = true
+					break
+				}
+			}
+			if hit {
+				taken[i] = true
+				changed = true
+				for _, c := range cs {
+					in[c] = true
+				}
+			}
+		}
+	}
+	var asserts []*Term
+	dropped := 0
+	for i, f := range facts {
+		if taken[i] {
+			asserts = append(asserts, f)
+		} else {
+			dropped++
+		}
+	}
+	if dropped == 0 {
+		return "", false
+	}
+	asserts = append(asserts, Not(o.Goal))
+	asserts = append(asserts, p.unfoldInstances([]*Term{o.Goal}, unfoldFuel, 40)...)
+	if !o.noLemmas {
+		asserts = append(asserts, p.lemmaAxioms()...)
+	}
+	return p.buildScript(asserts, nil), true
+}
+
 // BuildQueryLight drops the hypotheses that mention the evaluation-spec family (sound: fewer
 // hypotheses); only offered when the goal itself does not mention it.
 func (p *Prog) BuildQueryLight(o *Obligation) (string, bool) {
@@ -240,6 +326,7 @@ func (p *Prog) buildScript(asserts []*Term, getValues []string) string {
 	specRoots := map[string]bool{}
 	consts := map[string]*Sort{}
 	ufs := map[string]bool{}
+	usedLits := map[string]bool{}
 	scan := func(ts []*Term) {
 		collectSyms(ts, func(t *Term) {
 			if sd, ok := p.specs[t.Head]; ok && len(t.Args) == len(sd.Params) {
@@ -249,8 +336,14 @@ func (p *Prog) buildScript(asserts []*Term, getValues []string) string {
 				if s, ok := p.consts[t.Head]; ok {
 					consts[t.Head] = s
 				}
+				if t.S == SStr {
+					usedLits[t.Head] = true
+				}
 			}
 			if _, ok := p.ufuns[t.Head]; ok {
+				ufs[t.Head] = true
+			}
+			if strings.HasPrefix(t.Head, "appendAll_") {
 				ufs[t.Head] = true
 			}
 		})
@@ -263,12 +356,18 @@ func (p *Prog) buildScript(asserts []*Term, getValues []string) string {
 		_ = n
 	}
 	for _, sd := range p.specs {
-		if sd.done && sd.Body != nil {
+		if sd.done && sd.Body != nil && strings.Contains(specText, " "+sd.Name+" ") || sd.done && sd.Body != nil && strings.Contains(specText, "("+sd.Name+" ") {
 			bodies = append(bodies, sd.Body)
 		}
 	}
 	collectSyms(bodies, func(t *Term) {
+		if len(t.Args) == 0 && t.S == SStr {
+			usedLits[t.Head] = true
+		}
 		if _, ok := p.ufuns[t.Head]; ok {
+			ufs[t.Head] = true
+		}
+		if strings.HasPrefix(t.Head, "appendAll_") {
 			ufs[t.Head] = true
 		}
 	})
@@ -282,27 +381,30 @@ func (p *Prog) buildScript(asserts []*Term, getValues []string) string {
 			ufs["sortPerm_"+id] = true
 		}
 	}
-	var sb strings.Builder
-	sb.WriteString("(set-option :produce-models true)\n(set-logic ALL)\n")
-	sb.WriteString(p.w.Prelude())
-	sb.WriteString(fixedDefs)
+	// body first (what is used decides which declarations are emitted)
+	var body strings.Builder
 	for _, n := range p.ufunOrder {
 		if ufs[n] {
-			sb.WriteString(p.ufuns[n])
-			sb.WriteByte('\n')
+			body.WriteString(p.ufuns[n])
+			body.WriteByte('\n')
 		}
 	}
-	sb.WriteString(p.axiomText(ufs))
-	sb.WriteString(specText)
+	body.WriteString(p.axiomText(ufs))
+	body.WriteString(specText)
 	var cn []string
 	for n := range consts {
 		cn = append(cn, n)
 	}
 	sort.Strings(cn)
 	for _, n := range cn {
-		fmt.Fprintf(&sb, "(declare-const %s %s)\n", smtSym(n), consts[n].S)
+		fmt.Fprintf(&body, "(declare-const %s %s)\n", smtSym(n), consts[n].S)
 	}
-	PrintAsserts(&sb, asserts, "d!")
+	PrintAsserts(&body, asserts, "d!")
+	var sb strings.Builder
+	sb.WriteString("(set-option :produce-models true)\n(set-logic ALL)\n")
+	sb.WriteString(p.w.Prelude(fixedDefs+body.String(), usedLits))
+	sb.WriteString(fixedDefs)
+	sb.WriteString(body.String())
 	sb.WriteString("(check-sat)\n")
 	if len(getValues) > 0 {
 		sb.WriteString("(get-value (" + strings.Join(getValues, " ") + "))\n")
@@ -326,6 +428,9 @@ func smtSym(n string) string {
 func (p *Prog) axiomText(ufs map[string]bool) string {
 	var sb strings.Builder
 	for name := range p.needAppendAxiom {
+		if !ufs["appendAll_"+name] {
+			continue
+		}
 		si := (*SliceInfo)(nil)
 		for _, s := range p.w.slices {
 			if s.Name == name {
@@ -496,11 +601,15 @@ func (p *Prog) dischargeAll(obls []*Obligation, timeout time.Duration, dir strin
 	var mu sync.Mutex
 	queries := make([]string, len(obls))
 	light := make([]string, len(obls))
+	coi := make([]string, len(obls))
 	for i, o := range obls {
 		if o.Verdict == "" {
 			queries[i] = p.BuildQuery(o, nil)
 			if q, ok := p.BuildQueryLight(o); ok {
 				light[i] = q
+			}
+			if q, ok := p.BuildQueryCOI(o); ok {
+				coi[i] = q
 			}
 		}
 	}
@@ -514,6 +623,16 @@ func (p *Prog) dischargeAll(obls []*Obligation, timeout time.Duration, dir strin
 			defer wg.Done()
 			defer func() { <-sem }()
 			tag := fmt.Sprintf("q%04d", i)
+			if coi[i] != "" {
+				// first only the hypotheses in the goal's cone of influence
+				rc := runPortfolio(coi[i], timeout/2, dir, tag+"c", false)
+				if rc.verdict == "unsat" {
+					mu.Lock()
+					o.Verdict, o.Solver, o.Secs, o.Output = rc.verdict, rc.solver+"(coi)", rc.secs, rc.output
+					mu.Unlock()
+					return
+				}
+			}
 			if light[i] != "" {
 				// first without the evaluation-spec hypotheses: unsat there is unsat with them
 				rl := runPortfolio(light[i], timeout, dir, tag+"l", false)
